@@ -512,6 +512,134 @@ print('REPRODUCED' if bad else 'NOT-REPRODUCED'); sys.exit(1 if bad else 0)
     return path if ok else None
 
 
+# ------------------------------------------------------------------ (c) backward() inside no_autodiff on a graph recorded outside
+BACK_GRAPH = "w = x * y\nv = w[:1]\nc = mg.multiply(w, 2.0, constant=True)\nk = mg.sum(c)\nout = (w * w).sum() + v.sum()"
+BACK_TARGETS = ["w", "c", "k", "v", "x", "out"]
+
+
+def _graph_state(mg, lm, T):
+    return {n: (id(t.creator), None if t.creator is None else tuple(id(i) for i in t.creator.variables), frozenset(id(o) for o in t._ops), t.grad is None,
+                id(t.base), t.data.flags.writeable) for n, t in T.items()}, dict(lm._array_counter)
+
+
+def run_noauto_backward(spec, tier, mg):
+    res = common.new_result()
+    import mygrad._utils.lock_management as lm
+
+    engine = eng_mod.Engine(skip_ties=True)
+    engine.reset_fn = lib.reset_state
+    for target in spec["targets"]:
+        def body():
+            out = {}
+            for mode in ("plain", "interlude"):
+                x, y = mg.Tensor(symarr("x", (2,))), mg.Tensor(symarr("y", (2,)))
+                env = {"mg": mg, "np": np, "x": x, "y": y}
+                exec(BACK_GRAPH, env)
+                T = {n: env[n] for n in ("x", "y", "w", "v", "c", "k", "out")}
+                st0 = _graph_state(mg, lm, T)
+                err = None
+                if mode == "interlude":
+                    with mg.no_autodiff:
+                        try:
+                            env[target].backward()
+                        except Exception as e:  # noqa
+                            err = e
+                st1 = _graph_state(mg, lm, T)
+                later = None
+                try:
+                    env["out"].backward()
+                except Exception as e:  # noqa
+                    later = e
+                out[mode] = dict(T=T, st0=st0, st1=st1, err=err, later=later)
+            return out
+
+        for p in engine.explore(body, max_paths=50, max_seconds=60):
+            res["paths"] += 1
+            if p.exc is not None:
+                res["status"] = common.INCONCLUSIVE
+                res["notes"].append("backward-inside/%s: %s: %s" % (target, type(p.exc).__name__, p.exc))
+                continue
+            a, b = p.out["plain"], p.out["interlude"]
+            bad = []
+            if b["err"] is not None:
+                bad.append("backward() raised inside no_autodiff: %r" % b["err"])
+            if a["later"] is not None:
+                res["status"] = common.INCONCLUSIVE
+                res["notes"].append("backward-inside/%s: plain run raised %r" % (target, a["later"]))
+                continue
+            if b["later"] is not None:
+                bad.append("after leaving the scope out.backward() raised %s" % type(b["later"]).__name__)
+            (s0, l0), (s1, l1) = b["st0"], b["st1"]
+            for n in s0:
+                for k, what in enumerate(("creator", "creator inputs", "recorded consumers", "gradient", "base", "writeable flag")):
+                    if s0[n][k] != s1[n][k]:
+                        bad.append("%s.backward() inside no_autodiff changed the %s of %s" % (target, what, n))
+            if l0 != l1:
+                bad.append("%s.backward() inside no_autodiff changed the lock tables" % target)
+            prob = query.Problem(list(p.pc) + list(p.dom))
+            for n in ("x", "y", "w", "v"):
+                ga, gb = a["T"][n].grad, b["T"][n].grad
+                if (ga is None) != (gb is None):
+                    bad.append("after leaving the scope out.backward() gives %s.grad %s (without the interlude: %s)" % (n, "None" if gb is None else "an array", "None" if ga is None else "an array"))
+                elif ga is not None:
+                    if ga.shape != gb.shape:
+                        bad.append("later gradient of %s has another shape" % n)
+                        continue
+                    rr = prob.differ_any(list(zip(terms_of(ga), terms_of(gb))), 10000)
+                    res[rr.verdict] += 1
+                    if rr.verdict == "sat":
+                        bad.append("later gradient of %s differs from the run without the interlude" % n)
+                    elif rr.verdict == "unknown":
+                        res["status"] = common.INCONCLUSIVE
+            if bad:
+                rp = _noauto_back_replay(target)
+                if rp:
+                    res["status"] = common.VIOLATION
+                    res["violations"].append({"signature": "no_autodiff-backward:%s" % target, "replay": rp,
+                                              "summary": "graph `%s`, then `%s.backward()` inside no_autodiff: %s" % (BACK_GRAPH.replace("\n", "; "), target, "; ".join(bad))})
+                else:
+                    res["status"] = common.INCONCLUSIVE
+                    res["notes"].append("did not reproduce: backward-inside/%s :: %s" % (target, bad))
+    res["sample"] = {"case": spec["name"], "graph": BACK_GRAPH, "targets": spec["targets"]}
+    return res
+
+
+def _noauto_back_replay(target):
+    src = '''import sys
+import numpy as np
+import mygrad as mg
+import mygrad._utils.lock_management as lm
+GRAPH = %r
+TARGET = %r
+def state(T):
+    return {n: (id(t.creator), frozenset(id(o) for o in t._ops), t.grad is None, id(t.base), t.data.flags.writeable) for n, t in T.items()}, dict(lm._array_counter)
+def run(interlude):
+    x, y = mg.tensor([1.5, -2.0]), mg.tensor([0.5, 3.0])
+    env = {"mg": mg, "np": np, "x": x, "y": y}
+    exec(GRAPH, env)
+    T = {n: env[n] for n in ("x", "y", "w", "v", "c", "k", "out")}
+    s0 = state(T)
+    bad = []
+    if interlude:
+        with mg.no_autodiff:
+            env[TARGET].backward()
+        s1 = state(T)
+        if s0 != s1: bad.append("graph state changed by backward() inside no_autodiff")
+    try: env["out"].backward()
+    except Exception as e: bad.append("later out.backward() raised " + type(e).__name__)
+    return {n: None if t.grad is None else t.grad.copy() for n, t in T.items()}, bad
+g1, _ = run(False)
+g2, bad = run(True)
+for n in g1:
+    if (g1[n] is None) != (g2[n] is None) or (g1[n] is not None and not np.allclose(g1[n], g2[n])): bad.append("later gradient of " + n)
+print(bad)
+print('REPRODUCED' if bad else 'NOT-REPRODUCED'); sys.exit(1 if bad else 0)
+''' % (BACK_GRAPH, target)
+    path = common.write_replay(PROP, gradcase._safe("noauto_back_" + target), src)
+    ok, out = common.run_replay(path)
+    return path if ok else None
+
+
 # ------------------------------------------------------------------ driver
 def cases(tier):
     cs = []
@@ -521,6 +649,8 @@ def cases(tier):
     cs.append({"kind": "nest", "name": "nesting/bounded"})
     for i in range(0, len(PROGS), 3):
         cs.append({"kind": "noauto", "name": "noauto/%d" % i, "progs": PROGS[i:i + 3]})
+    for i in range(0, len(BACK_TARGETS), 2):
+        cs.append({"kind": "noauto-back", "name": "noauto-backward/%d" % i, "targets": BACK_TARGETS[i:i + 2]})
     return cs
 
 
@@ -530,6 +660,8 @@ def run_case(spec, tier):
         return run_inductive(spec, tier)
     if spec["kind"] == "nest":
         return run_nesting(spec, tier, mg)
+    if spec["kind"] == "noauto-back":
+        return run_noauto_backward(spec, tier, mg)
     return run_noautodiff(spec, tier, mg)
 
 
